@@ -381,6 +381,7 @@ public:
 
     if constexpr (std::is_pointer_v<T>) {
       auto ptr = this->impl().get_raw_value();
+      detail::dynamic_check(ptr != nullptr, "Indexing a null pointer");
 
       // increment the target by size of the data structure
       auto target = detail::checked_pointer_offset(
